@@ -94,6 +94,20 @@ register('C11',
          'DESIGN.md 5/C11')
 
 
+register('C10',
+         'Bsgs.tla models PointTable/BatchDL/BatchDLOfDifferences in Z_q with the cached table they share; TLC checks that after '
+         'every call of every call history (all bounds 1..Q, list lengths 1..3, all max_diff) every x below the bound is found, '
+         'and refutes both off-by-one deviations of the step constants (non-vacuity). TLC-simulated call histories are replayed '
+         'on fresh EcCurve objects over real small curves of the same order, each model call expanded into real calls covering '
+         'every x below the bound; TLC validates each result from the definitional group law (sound: dl*G = P, complete: every '
+         'x < bound found; difference search: relation true, both partners flagged, identical keys silent). Named curves: '
+         'boundary x values under call histories, small differences with history lists, structured private keys through '
+         'ExtendedBatchDL, decided by TLC from the known keys (T2).',
+         'Trusted: TLC, refec.py, the relation-string regex. ExtendedBatchDL needs a 2^32 search, so it is exercised on named curves only.',
+         'TLA+ spec (Bsgs.tla) model-checked over call histories with TLC + TLC-simulated histories replayed on small real curves + TLC trace validation',
+         'DESIGN.md 5/C10')
+
+
 def main():
   props = [json.loads(l)['id'] for l in open(os.path.join(HOME, 'properties.jsonl'))]
   checks = []
